@@ -291,8 +291,35 @@ pub proof fn lemma_step_keeps_rights(before: Seq<EntityRightNode>, after: Seq<En
         assert(after[after.len() - 1] == o);
     }
 }
-/// the user admins used to entitle new users: those of the group already held, extended only by entries authored by room admins
-pub uninterp spec fn acc_ok(room: Room, old_auth: AuthorisationNode, acc: Authorisation) -> bool;
+/// lets a contract name a group whether the code holds it by value or by reference
+pub trait AsAuth { spec fn as_auth(&self) -> Authorisation; }
+impl AsAuth for Authorisation { open spec fn as_auth(&self) -> Authorisation { *self } }
+impl AsAuth for &Authorisation { open spec fn as_auth(&self) -> Authorisation { **self } }
+/// the entry `u` is in the history of its key in `m`
+pub open spec fn entry_in(m: Map<Vec<u8>, Vec<User>>, u: User) -> bool { m.contains_key(u.verifying_key) && m[u.verifying_key]@.contains(u) }
+/// `acc` (the group against which new users are checked) contains every user-admin entry of the merged list that was not already
+/// held: user admins revoked or added by the very definition being merged are taken into account when its new users are checked
+pub open spec fn acc_has_new_user_admins(acc: Authorisation, old_s: Seq<UserNode>, s: Seq<UserNode>) -> bool {
+    forall|i: int| 0 <= i < s.len() ==> id_in_users((#[trigger] s[i]).node.id, old_s) || entry_in(acc.user_admins@, spec_user_of(s[i]))
+}
+pub proof fn lemma_appended_keeps_entries(a: Map<Vec<u8>, Vec<User>>, b: Map<Vec<u8>, Vec<User>>, added: User, u: User)
+    requires users_appended(a, b, added), entry_in(a, u) || u == added,
+    ensures entry_in(b, u),
+{
+    reveal(users_appended);
+    if u == added {
+        assert(b[added.verifying_key]@ == user_list(a, added.verifying_key).push(added));
+        assert(b[added.verifying_key]@[user_list(a, added.verifying_key).len() as int] == added);
+    } else if u.verifying_key == added.verifying_key {
+        let l = a[u.verifying_key]@;
+        let k = choose|k: int| 0 <= k < l.len() && l[k] == u;
+        assert(b[u.verifying_key]@ == l.push(added));
+        assert(b[u.verifying_key]@[k] == u);
+    } else {
+        assert(a.contains_key(u.verifying_key) == b.contains_key(u.verifying_key));
+        assert(a[u.verifying_key] == b[u.verifying_key]);
+    }
+}
 
 //@ extract src/database/room_node.rs :: fn prepare_auth_with_history
 //@ result r
@@ -347,9 +374,24 @@ pub uninterp spec fn acc_ok(room: Room, old_auth: AuthorisationNode, acc: Author
             // [merge_new_user_admins_by_admins] a user-admin entry not already held is accepted only from a room admin at the entry's date
             forall|i: int| 0 <= i < it.index@ ==> id_in_users((#[trigger] new_auth.user_admin_nodes@[i]).node.id, old_auth.user_admin_nodes@)
                 || spec_is_admin(*room, new_auth.user_admin_nodes@[i].node.verifying_key, new_auth.user_admin_nodes@[i].node.mdate),
+            // [merge_new_user_admins_applied] and is applied to the group against which the definition's new users are checked
+            forall|i: int| 0 <= i < it.index@ ==> id_in_users((#[trigger] new_auth.user_admin_nodes@[i]).node.id, old_auth.user_admin_nodes@)
+                || entry_in(authorisation.as_auth().user_admins@, spec_user_of(new_auth.user_admin_nodes@[i])),
+//@ insert before-stmt "authorisation.add_user_admin(user)"
+                    let ghost acc_before = authorisation.as_auth(); let ghost added = user;
+//@ insert after-stmt "authorisation.add_user_admin(user)"
+                    proof {
+                        assert forall|i: int| 0 <= i < it.index@ && !id_in_users((#[trigger] new_auth.user_admin_nodes@[i]).node.id, old_auth.user_admin_nodes@)
+                            implies entry_in(authorisation.as_auth().user_admins@, spec_user_of(new_auth.user_admin_nodes@[i])) by {
+                            lemma_appended_keeps_entries(acc_before.user_admins@, authorisation.as_auth().user_admins@, added, spec_user_of(new_auth.user_admin_nodes@[i]));
+                        }
+                        lemma_appended_keeps_entries(acc_before.user_admins@, authorisation.as_auth().user_admins@, added, added);
+                    }
 //@ insert after-stmt "for new_user_admin in &new_auth.user_admin_nodes"
     let ghost ua_final = new_auth.user_admin_nodes@;
     assert(new_user_admins_entitled(*room, old_auth.user_admin_nodes@, ua_final));
+    assert(acc_has_new_user_admins(authorisation.as_auth(), old_auth.user_admin_nodes@, ua_final));
+    let ghost acc_final = authorisation.as_auth();
 //@ closure "|edge|" #2 ret bool
         ensures b == edge_same(**edge, *old_edge)
 //@ loop "for old_edge in &old_auth.user_edges" iter ite
@@ -386,14 +428,14 @@ pub uninterp spec fn acc_ok(room: Room, old_auth: AuthorisationNode, acc: Author
 //@ loop "for new_user in &new_auth.user_nodes" iter it
         invariant
             <[u8; 16] as PartialEqSpec<[u8; 16]>>::obeys_eq_spec(),
-            new_auth.user_admin_nodes@ == ua_final,
+            new_auth.user_admin_nodes@ == ua_final, authorisation.as_auth() == acc_final,
             // [merge_new_users_by_user_admins_or_admins] a user entry not already held is accepted only from a user admin of the group or a room admin at the entry's date
             forall|i: int| 0 <= i < it.index@ ==> id_in_users((#[trigger] new_auth.user_nodes@[i]).node.id, old_auth.user_nodes@)
-                || spec_can_admin_users(authorisation, new_auth.user_nodes@[i].node.verifying_key, new_auth.user_nodes@[i].node.mdate)
+                || spec_can_admin_users(authorisation.as_auth(), new_auth.user_nodes@[i].node.verifying_key, new_auth.user_nodes@[i].node.mdate)
                 || spec_is_admin(*room, new_auth.user_nodes@[i].node.verifying_key, new_auth.user_nodes@[i].node.mdate),
 //@ insert after-stmt "for new_user in &new_auth.user_nodes"
     let ghost u_final = new_auth.user_nodes@;
-    assert(new_users_entitled(*room, authorisation, old_auth.user_nodes@, u_final));
+    assert(new_users_entitled(*room, authorisation.as_auth(), old_auth.user_nodes@, u_final));
 //@ closure "|edge|" #3 ret bool
         ensures b == edge_same(**edge, *old_edge)
 //@ loop "for old_edge in &old_auth.right_edges" iter ite
@@ -451,7 +493,8 @@ pub uninterp spec fn acc_ok(room: Room, old_auth: AuthorisationNode, acc: Author
             // [merged_group_new_user_admins_entitled]
             r is Ok ==> new_user_admins_entitled(*room, old_auth.user_admin_nodes@, final(new_auth).user_admin_nodes@),
             // [merged_group_new_users_entitled]
-            r is Ok ==> exists|acc: Authorisation| new_users_entitled(*room, acc, old_auth.user_nodes@, final(new_auth).user_nodes@),
+            r is Ok ==> exists|acc: Authorisation| acc_has_new_user_admins(acc, old_auth.user_admin_nodes@, final(new_auth).user_admin_nodes@)
+                && new_users_entitled(*room, acc, old_auth.user_nodes@, final(new_auth).user_nodes@),
             // [merged_group_new_rights_entitled]
             r is Ok ==> new_rights_entitled(*room, old_auth.right_nodes@, final(new_auth).right_nodes@),
 //@ end
